@@ -260,7 +260,9 @@ func TestVerifC16Cmd(t *testing.T) {
 		if !errors.Is(runErr, syncer.ErrLeaderTakeover) {
 			s.Violate("ahead-not-offered", "an ahead follower's Run did not end with the take-over error: "+fmt.Sprint(runErr), replay)
 		}
-		if !vfC16Wait(func() bool { return syncerWait.IsClosed() }) || !errors.Is(syncerWait.Error(), syncer.ErrLeaderHandover) {
+		// (Sync closes the wait before its handler returns, i.e. before the follower's Run — which pauses
+		// 2 s on the role error — can have returned: no waiting needed here)
+		if !syncerWait.IsClosed() || !errors.Is(syncerWait.Error(), syncer.ErrLeaderHandover) {
 			s.Violate("handover-leader-keeps-running", "the leader answered HANDOVER but its syncer is not stopped", replay)
 		}
 		_, right := fch.GetOffsetRange("idA")
